@@ -10,6 +10,7 @@ structure St where
   host : Host := {}
   imgs : List (String × Mem) := []
   fixed : Bool := false
+  fixedRecv : Bool := false
   tbl : DescTable.Table Nat := DescTable.empty
 
 def init : St := {}
@@ -85,13 +86,16 @@ def resStr (r : Res) : String :=
 def tblShape (t : DescTable.Table Nat) : String :=
   s!"m={t.masks.length} i={t.items.length} n={DescTable.count t}"
 
-def step (st : St) (args : List String) : St × String :=
+partial def step (st : St) (args : List String) : St × String :=
   match args with
   | ["modelled"] => (st, String.intercalate " " modelled)
   | ["modelled2"] => (st, String.intercalate " " modelled2)
   | ["variant", v] =>
     if v == "asis" then ({ st with fixed := false }, "ok")
     else if v == "fixed" then ({ st with fixed := true }, "ok") else (st, "bad-op")
+  | ["variant2", v] =>
+    if v == "asis" then ({ st with fixedRecv := false }, "ok")
+    else if v == "fixed" then ({ st with fixedRecv := true }, "ok") else (st, "bad-op")
   | ["host", as, es, sin, wall, wres, mono, mres, pre] =>
     match parseHexList as, parseHexList es, parseBytes sin, parseNat wall, parseNat wres, parseNat mono, parseNat mres, parseBytes pre with
     | some a, some e, some s, some w, some wr, some mo, some mr, some p =>
@@ -102,6 +106,9 @@ def step (st : St) (args : List String) : St × String :=
     | some sz, some f, some rs =>
       ({ st with imgs := (name, Mem.ofRuns sz f rs) :: st.imgs.filter (·.1 != name) }, "ok")
     | _, _, _ => (st, "bad-op")
+  | "callr" :: rest =>
+    let (_, ans) := step { st with host := { st.host with cacheFull := true } } ("call" :: rest)
+    (st, ans)
   | "call" :: fn :: img :: fds :: rest =>
     match (st.imgs.find? (·.1 == img)).map (·.2), parseFds fds, parseNats rest with
     | some m, some t, some a =>
@@ -112,7 +119,7 @@ def step (st : St) (args : List String) : St × String :=
         | .error e => (st, errStr e)
         | .ok (_, _, dst) => (st, s!"e=0 a={8 * (slotsAfterInsertAt t dst - DescTable.slots t)}")
       else
-      match call st.fixed st.host t m fn a with
+      match call st.fixed st.fixedRecv st.host t m fn a with
       | some rs => (st, String.intercalate " | " (rs.map resStr))
       | none => (st, "bad-op")
     | _, _, _ => (st, "bad-op")
